@@ -81,6 +81,22 @@ func WithSwapExit(out *Outcome, onExit func(int), f func()) {
 	}()
 }
 
+// EnvPreset tells the adapters that the environment variables of all cases were set beforehand (C20 runs cases
+// concurrently; the variable is written only while no case goroutine runs).
+var EnvPreset bool
+
+func setenv(k, v string) {
+	if !EnvPreset {
+		os.Setenv(k, v)
+	}
+}
+
+func unsetenv(k string) {
+	if !EnvPreset {
+		os.Unsetenv(k)
+	}
+}
+
 // EnvName is the environment variable backing option i of a case.
 func EnvName(i int) string { return fmt.Sprintf("VERIF_E_%d", i) }
 
@@ -106,7 +122,7 @@ func DeclareRecorders(c *cli.Cmd, d *Decls, envPrefix string) []Holder {
 		env := ""
 		if o.Env {
 			env = envPrefix + EnvName(i)
-			os.Setenv(env, EnvValue(o))
+			setenv(env, EnvValue(o))
 		}
 		set := new(bool)
 		if o.Bool {
@@ -119,7 +135,7 @@ func DeclareRecorders(c *cli.Cmd, d *Decls, envPrefix string) []Holder {
 			hs = append(hs, Holder{d.OptKey(i), v, set})
 		}
 		if env != "" {
-			os.Unsetenv(env)
+			unsetenv(env)
 		}
 	}
 	for i, a := range d.Args {
@@ -145,27 +161,27 @@ func Snapshot(hs []Holder) map[string][]string {
 // RunReal builds a one-command app from (d, spec) and runs it on argv under ContinueOnError.
 func RunReal(d *Decls, spec string, argv []string) Outcome {
 	var out Outcome
-	WithSwap(&out, func() {
-		app := cli.App("app", "")
-		app.ErrorHandling = flag.ContinueOnError
-		app.Spec = spec
-		hs := DeclareRecorders(app.Cmd, d, "")
-		app.Action = func() {
-			out.Accept = true
-			out.Bind = Snapshot(hs)
-			out.Raw = map[string][]string{}
-			for _, h := range hs {
-				out.Raw[h.Key] = append([]string{}, h.Rec.Vals...)
-			}
-		}
-		err := app.Run(append([]string{"app"}, argv...))
-		if err != nil {
-			out.HasErr = true
-			out.Err = err.Error()
-		}
-	})
+	WithSwap(&out, func() { RunRealInner(&out, d, spec, argv, "") })
 	return out
 }
 
-func setenv(k, v string) { os.Setenv(k, v) }
-func unsetenv(k string)  { os.Unsetenv(k) }
+// RunRealInner is RunReal without touching the package level streams (the caller installed them).
+func RunRealInner(out *Outcome, d *Decls, spec string, argv []string, envPrefix string) {
+	app := cli.App("app", "")
+	app.ErrorHandling = flag.ContinueOnError
+	app.Spec = spec
+	hs := DeclareRecorders(app.Cmd, d, envPrefix)
+	app.Action = func() {
+		out.Accept = true
+		out.Bind = Snapshot(hs)
+		out.Raw = map[string][]string{}
+		for _, h := range hs {
+			out.Raw[h.Key] = append([]string{}, h.Rec.Vals...)
+		}
+	}
+	err := app.Run(append([]string{"app"}, argv...))
+	if err != nil {
+		out.HasErr = true
+		out.Err = err.Error()
+	}
+}
